@@ -128,6 +128,39 @@ pub fn run(ctx: &Ctx) -> Value {
         if i % 4 == 1 { tw.emit(ev("t.since", json!({"a": tod(a), "b": tod(b)}), || json!({"r": dur(a - b)}))); }
         if i % 8 == 2 { tw.emit(ev("t.cmp", json!({"a": tod(a), "b": tod(b)}), || json!({"c": a.cmp(&b) as i8}))); }
     }
+    // date-times with a leap-second operand: the same rules with the carry applied to the date (judged by Instant.tla),
+    // through the checked forms, the operators, compound assignment and std::time::Duration
+    let mut ti = Tw::new(&ctx.out, "Trace_Instant", ctx.t(2_000, 15_000));
+    {
+        use chrono::NaiveDateTime;
+        let days = [crate::w::c01::MIN_DAY, crate::w::c01::MIN_DAY + 1, 719_163, 736_329, crate::w::c01::MAX_DAY - 1, crate::w::c01::MAX_DAY];
+        let mut n_dt = 0usize;
+        for (i, &t) in times.iter().enumerate() {
+            if t.nanosecond() < 1_000_000_000 && i % 4 != 0 { continue; }
+            if ctx.quick() && i % 3 != 0 { continue; }
+            let x: NaiveDateTime = mk_date(days[i % days.len()]).and_time(t);
+            for d in dur_lattice_for(t, &mut rng, 1) {
+                if ctx.quick() && d.unsigned_abs() % 3 == 1 { continue; }
+                let td = match mk_dur(d) { Some(x) => x, None => continue };
+                ti.emit(ev("dt.add", json!({"dt": ndt(x), "d": big(d)}), || json!({"r": opt(x.checked_add_signed(td), ndt)})));
+                ti.emit(ev("dt.sub", json!({"dt": ndt(x), "d": big(d)}), || json!({"r": opt(x.checked_sub_signed(td), ndt)})));
+                n_dt += 2;
+                if n_dt % 4 == 0 {
+                    ti.emit(ev("o.dt.add", json!({"dt": ndt(x), "d": big(d), "via": "add"}), || json!({"r": ndt(x + td)})));
+                    ti.emit(ev("o.dt.sub", json!({"dt": ndt(x), "d": big(d), "via": "sub_assign"}), || { let mut y = x; y -= td; json!({"r": ndt(y)}) }));
+                    if d >= 0 { if let Ok(sd) = td.to_std() {
+                        ti.emit(ev("o.dt.add", json!({"dt": ndt(x), "d": big(d), "via": "add_std"}), || json!({"r": ndt(x + sd)})));
+                        ti.emit(ev("o.dt.sub", json!({"dt": ndt(x), "d": big(d), "via": "sub_std"}), || json!({"r": ndt(x - sd)})));
+                        ti.emit(ev("o.dt.add", json!({"dt": ndt(x), "d": big(d), "via": "add_assign_std"}), || { let mut y = x; y += sd; json!({"r": ndt(y)}) }));
+                    }}
+                }
+            }
+            let o = mk_date(days[(i + 1) % days.len()]).and_time(*rng.pick(&times));
+            ti.emit(ev("dt.since", json!({"a": ndt(x), "b": ndt(o)}), || json!({"r": dur(x.signed_duration_since(o)), "c": x.cmp(&o) as i8})));
+            ti.emit(ev("dt.since", json!({"a": ndt(o), "b": ndt(x), "via": "sub_op"}), || json!({"r": dur(o - x), "c": o.cmp(&x) as i8})));
+        }
+    }
+    ti.finish();
     tw.finish();
-    json!({"events": tw.total, "constructor_events": n_ctor, "times": times.len(), "add_sub_events": n_arith, "pair_events": pairs})
+    json!({"events": tw.total + ti.total, "datetime_leap_events": ti.total, "constructor_events": n_ctor, "times": times.len(), "add_sub_events": n_arith, "pair_events": pairs})
 }
